@@ -6,7 +6,7 @@ MODULE = "NadaVerif.Props.C04"
 TRANSLATORS = None
 THEOREMS = [f"NadaVerif.C04.{n}" for n in (
     "schema_roundtrip", "bin_operand_order", "ifElse_operand_order", "rejected_bin_changes_nothing",
-    "random_is_fresh_node")]
+    "random_is_fresh_node", "records_persist", "records_persistB", "bin_node_survives")]
 
 
 def oracle(mir, rec):
